@@ -1,14 +1,14 @@
 #!/bin/bash
 # tools/seedregress.sh <nlanes> [pattern] — run ./check against every stored seeded change (seeded/<pattern>*/patch.diff)
-# on the current /repo HEAD, in <nlanes> parallel copies of /verif (/tmp/vreg-<k>). Result lines: /tmp/vreg-results/<name>.txt
+# on the current /repo HEAD, in <nlanes> parallel copies of /verif (${VREGBASE:-/tmp/vreg}-<k>). Result lines: ${VREGBASE:-/tmp/vreg}-results/<name>.txt
 # env ONLY / EXCEPT: extended regexes on the seed name (e.g. EXCEPT='^(C02|C04)-').
 # and a summary on stdout: <name> input|unshown|MISSED|no-apply
 N=${1:-4}; PAT=${2:-}
 export GOFLAGS=-mod=mod GOPROXY=off
-mkdir -p /tmp/vreg-results; rm -f /tmp/vreg-results/*.txt
+mkdir -p ${VREGBASE:-/tmp/vreg}-results; rm -f ${VREGBASE:-/tmp/vreg}-results/*.txt
 HEADC=$(git -C /verif rev-parse HEAD)
 for k in $(seq 0 $((N-1))); do
-  V=/tmp/vreg-$k
+  V=${VREGBASE:-/tmp/vreg}-$k
   if [ ! -d $V ]; then git -C /verif worktree add -q --detach $V $HEADC; else git -C $V checkout -q -f --detach $HEADC; fi
   ( cd $V && ./setup.sh >/dev/null 2>&1 ) &
 done
@@ -19,27 +19,27 @@ for d in /verif/seeded/${PAT}*/; do
   if [ -n "$ONLY" ] && ! echo "$name" | grep -Eq "$ONLY"; then continue; fi
   if [ -n "$EXCEPT" ] && echo "$name" | grep -Eq "$EXCEPT"; then continue; fi
   echo "$((i % N)) $name"; i=$((i+1))
-done > /tmp/vreg-results/plan
+done > ${VREGBASE:-/tmp/vreg}-results/plan
 lane() {
-  k=$1; V=/tmp/vreg-$k
-  grep "^$k " /tmp/vreg-results/plan | while read _ name; do
+  k=$1; V=${VREGBASE:-/tmp/vreg}-$k
+  grep "^$k " ${VREGBASE:-/tmp/vreg}-results/plan | while read _ name; do
     P=${name%%-*}
-    WT=/tmp/vreg-wt-$k
+    WT=${VREGBASE:-/tmp/vreg}-wt-$k
     git -C /repo worktree remove --force $WT 2>/dev/null; rm -rf $WT
     git -C /repo worktree add -q --detach $WT HEAD || continue
     if ! git -C $WT apply /verif/seeded/$name/patch.diff 2>/dev/null && ! git -C $WT apply --3way /verif/seeded/$name/patch.diff 2>/dev/null; then
-      echo "$name no-apply" > /tmp/vreg-results/$name.txt
+      echo "$name no-apply" > ${VREGBASE:-/tmp/vreg}-results/$name.txt
     else
       out=$(cd $V && VERIF_REPO=$WT timeout 1500 ./check $P quick 2>&1 | grep -v KNOWN | tail -3)
       if echo "$out" | grep -q "VIOLATION.*no-failing-input-found"; then r=unshown
       elif echo "$out" | grep -q "VIOLATION"; then r=input
       else r=MISSED; fi
-      echo "$name $r $(echo "$out" | tail -1)" > /tmp/vreg-results/$name.txt
+      echo "$name $r $(echo "$out" | tail -1)" > ${VREGBASE:-/tmp/vreg}-results/$name.txt
     fi
     git -C /repo worktree remove --force $WT 2>/dev/null
   done
 }
 for k in $(seq 0 $((N-1))); do lane $k & done
 wait
-cat /tmp/vreg-results/*.txt | awk '{print $2}' | sort | uniq -c
-grep -v " input " /tmp/vreg-results/*.txt | cut -d: -f2- | cut -c1-200
+cat ${VREGBASE:-/tmp/vreg}-results/*.txt | awk '{print $2}' | sort | uniq -c
+grep -v " input " ${VREGBASE:-/tmp/vreg}-results/*.txt | cut -d: -f2- | cut -c1-200
